@@ -14,7 +14,7 @@ CHUNK = 40
 RULE = ('suite hierarchies (flat with plain names / globs, one and two sub-suites, depth 2, directories with exactly.suite, sub/*.case, [suites] globs matching directories and suite files) x every assignment of the 14 verdicts '
         '(PASS, FAIL, XFAIL, XPASS, SKIPPED, HARD_ERROR, VALIDATION_ERROR, instruction SYNTAX_ERROR, act-phase SYNTAX_ERROR, INTERNAL_ERROR, FILE_ACCESS_ERROR, case file that is not UTF-8, FAIL whose message quotes control characters, unexpected exception while the case is processed) to <= 2 cases '
         '(3 cases on the flat hierarchy; thorough: 3 everywhere) x reporter {progress, junit}; plus invalid suites (listed twice in several ways, diamond, cycle, self reference, '
-        'missing case / suite, syntax error, unknown section, suite file that is not UTF-8, names below a regular file, symbolic-link loops, patterns that are not valid glob patterns); non-trivial = at least one case is not PASS or the hierarchy has sub-suites or is invalid')
+        'missing case / suite, syntax error, unknown section, suite file that is not UTF-8, names below a regular file, symbolic-link loops, patterns that are not valid glob patterns); one suite listing a case file several times (4 listings x 4 verdicts^2): all reporters count exactly the executions that took place; non-trivial = at least one case is not PASS or the hierarchy has sub-suites or is invalid')
 ASSUMPTIONS = [
     'durations printed by the reporters are ignored',
     'case actions are virtual children whose start is the execution marker',
@@ -154,6 +154,69 @@ def cases(tier):
     for name in INVALID:
         for rep in ('progress', 'junit'):
             yield ('invalid', name, rep)
+    # ONE suite that lists the same case file more than once (plain name + glob, name twice, glob twice)
+    for li in range(len(DUP_LISTINGS)):
+        for assign in itertools.product(range(len(DUP_VERDICTS)), repeat=2):
+            for rep in ('progress', 'junit'):
+                yield ('dup', li, assign, rep)
+
+
+DUP_LISTINGS = [['b.case', '?.case'], ['a.case', 'a.case', 'b.case'], ['*.case', '?.case'], ['a.case', 'sub/../a.case', 'b.case']]
+DUP_EXPANDED = [['b.case', 'a.case', 'b.case'], ['a.case', 'a.case', 'b.case'], ['a.case', 'b.case', 'a.case', 'b.case'], ['a.case', 'a.case', 'b.case']]
+DUP_VERDICTS = ('PASS', 'FAIL', 'XFAIL', 'INTERNAL_ERROR')      # all of them run the action: executions can be counted
+
+
+def _dup(res, case, w, seam, mp):
+    """A case file listed several times in one suite: whether it is then processed once per listing (as the unchanged program does) or once in
+    all is not fixed by the statement; what IS fixed: every reporter counts exactly the executions that took place, in their order."""
+    _, li, assign, rep = case
+    verdict_of = {'a.case': DUP_VERDICTS[assign[0]], 'b.case': DUP_VERDICTS[assign[1]]}
+    for c, v in verdict_of.items():
+        w.write(c, case_text(v, c))
+    w.write('sub/keep', '')
+    w.write('main.suite', '[cases]\n' + '\n'.join(DUP_LISTINGS[li]) + '\n')
+    o = cli.run(['suite'] + (['--reporter', 'junit'] if rep == 'junit' else []) + [str(w.home / 'main.suite')], mp=mp)
+    errs = []
+    if o.exc:
+        errs.append('exception: %s' % o.exc)
+    marks = [c['args'][1] for c in seam.calls if c['name'] == 'mark']
+    per_listing = DUP_EXPANDED[li]
+    once = [c for i, c in enumerate(per_listing) if c not in per_listing[:i]]
+    if marks not in (per_listing, once):
+        errs.append('cases executed: %s; the listing %s gives %s (or each file once: %s)' % (marks, DUP_LISTINGS[li], per_listing, once))
+    bad = sum(1 for c in marks if verdict_of[c] not in SUCCESS)
+    if rep == 'progress':
+        case_lines = [re.sub(r'\(\d+(\.\d+)?s\)', '', l).replace(':', ' ').split() for l in o.out.split('\n') if l.startswith('case')]
+        got = [(os.path.basename(t[1]), t[-1]) for t in case_lines]
+        want = [(c, IDENT.get(verdict_of[c], verdict_of[c])) for c in marks]
+        if got != want:
+            errs.append('progress: case lines %s, executions %s' % (got, want))
+        m = re.search(r'Ran (\d+) tests?', o.err)
+        if m and int(m.group(1)) != len(marks):
+            errs.append('progress: summary says "Ran %s tests", %d cases were executed' % (m.group(1), len(marks)))
+        if o.rc != (0 if bad == 0 else 4):
+            errs.append('exit code %s with %d unsuccessful executions' % (o.rc, bad))
+    else:
+        try:
+            root = ET.fromstring(o.out)
+        except ET.ParseError as ex:
+            root = None
+            errs.append('junit: output is not well-formed XML: %s' % ex)
+        if root is not None:
+            tcs = list(root.iter('testcase'))
+            if root.get('tests') != str(len(marks)) or len(tcs) != len(marks):
+                errs.append('junit: tests=%s, %d testcase elements, %d cases were executed' % (root.get('tests'), len(tcs), len(marks)))
+            if [os.path.basename(t.get('name')) for t in tcs] != marks:
+                errs.append('junit: testcases %s, executions %s' % ([t.get('name') for t in tcs], marks))
+            fe = int(root.get('failures') or 0) + int(root.get('errors') or 0)
+            marked = sum(1 for t in tcs if t.find('failure') is not None or t.find('error') is not None)
+            if fe != bad or marked != bad:
+                errs.append('junit: failures+errors = %d, %d elements carry a failure/error, %d executions were unsuccessful' % (fe, marked, bad))
+    res.outcomes[('dup', rep, o.rc)] += 1
+    res.nontrivial += 1
+    if errs:
+        res.violation(case, errs, {'stdout': o.out[:1200], 'stderr': o.err[:600], 'verdicts': verdict_of, 'listing': DUP_LISTINGS[li]})
+    return res
 
 
 def _mark(rec):
@@ -194,6 +257,8 @@ def run(case) -> Result:
     mp = stubprog.main_program()
     if case[0] == 'invalid':
         return _invalid(res, case, w, seam, mp)
+    if case[0] == 'dup':
+        return _dup(res, case, w, seam, mp)
     _, h, assign, rep = case
     orders = ('reverse', 'forward') if 'glob' in h else ('reverse',)
     for creation in orders:
@@ -254,6 +319,9 @@ def _run_one(res, case, w, seam, mp, creation):
             errs.append('progress output %s, expected %s' % (lines, want))
         if o.rc != (0 if all_ok else 4):
             errs.append('exit code %s, expected %s' % (o.rc, 0 if all_ok else 4))
+        m = re.search(r'Ran (\d+) tests?', o.err)
+        if m and int(m.group(1)) != len(flat):
+            errs.append('progress: summary says "Ran %s tests", the suite has %d cases' % (m.group(1), len(flat)))
     else:
         if o.rc != 0:
             errs.append('junit: exit code %s, documented: unconditionally 0' % o.rc)
